@@ -19,6 +19,7 @@ class Summ:
         self._flag = {}
         self.notes = []
         self._ntag = 0
+        self._guard = {}
         self._exp = {}
         self.tagnum = {}
 
@@ -104,10 +105,70 @@ class Summ:
         raise Unanalysable("atom %r" % (a,))
 
     def guard(self, body, bb):
+        key = (body.path, bb)
+        if key in self._guard:
+            return self._guard[key]
         raw = core.block_guard_atoms(body, bb)
         if raw is None:
             return B.F
-        return B.Or(*[B.And(*[self.atom_formula(body, a) for a in conj]) for conj in raw])
+        base = B.Or(*[B.And(*[self.atom_formula(body, a) for a in conj]) for conj in raw])
+        # loops that were left before reaching bb: reaching bb means that no iteration took an early exit
+        # (break / continue 'outer / return inside the loop): conjoin  !exists elem: exit-condition
+        extra = []
+        import order as O
+        trivial = getattr(body, "trivial_switches", set())
+        for h, blocks in sorted(body.loops.items()):
+            if bb in blocks or not body.reaches_acyclic(h, bb):
+                continue
+            normal_reaches = False
+            for x in sorted(blocks):
+                for (t, lab) in body.succ[x]:
+                    if t not in blocks and lab is not None and lab[0] in trivial and body.reaches_acyclic(t, bb):
+                        normal_reaches = True
+            if not normal_reaches:
+                continue  # bb lies on an early-exit path of this loop: its path condition already says which one
+            for x in sorted(blocks):
+                for (t, lab) in body.succ[x]:
+                    if t in blocks:
+                        continue
+                    if lab is not None and lab[0] in trivial:
+                        continue  # iterator exhausted: the normal exit
+                    if body.reaches_acyclic(t, bb):
+                        raise Unanalysable("early exit of the loop at bb%d rejoins the code after it (%s)" % (h, body.path))
+                    cond = self.guard(body, x)
+                    if lab is not None:
+                        cond = B.And(cond, self.atom_formula(body, core.switch_atom(body, lab[0], lab[1])))
+                    keep = set()
+                    for lp in O.loops_of_body(body):
+                        if lp.head is not None and (lp.head == h or lp.head in blocks):
+                            keep.add(("elem", lp.iterable))
+                            if lp.iterable[0] == "enumerate":
+                                keep.add(("enumelem", lp.iterable[1]))
+                    extra.append(B.Not(self._tag(cond, ("exit", body.path, h), keep)))
+        r = B.And(base, *extra)
+        self._guard[key] = r
+        return r
+
+    def _tag(self, f, tag, keep):
+        def tr(t):
+            if not isinstance(t, tuple) or not t:
+                return t
+            if t[0] == "elem" and t[1][0] != "iter" and t in keep:
+                return ("elem", ("iter", tr(t[1]), tag))
+            if t[0] in ("const", "obj", "rec", "unknown", "bottom", "param"):
+                return t
+            return tuple(tr(x) if isinstance(x, tuple) else x for x in t)
+
+        def fn(key):
+            k = key[0]
+            if k == "is":
+                return B.atom(("is", tr(key[1]), key[2]))
+            if k == "rel":
+                return B.atom(("rel", key[1], tr(key[2]), tr(key[3])))
+            if k == "pred":
+                return B.atom(("pred", tr(key[1])))
+            return None
+        return B.subst_atoms(f, fn)
 
     # ---------------------------------------------------------------- predicates and flags
     def ret_cond(self, body):
@@ -251,6 +312,9 @@ class Summ:
             name = s.path.rsplit("::", 1)[-1]
             if name == "insert" and len(s.args) == 2:
                 out.append((s.args[1], self.guard(body, s.bb), s))
+            elif name == "insert" and len(s.args) == 3:
+                # map insert: the reported term is the (key, value) pair
+                out.append((("agg", "tuple", "", (s.args[1], s.args[2])), self.guard(body, s.bb), s))
             elif name == "extend" and len(s.args) == 2:
                 y = s.args[1]
                 g = self.guard(body, s.bb)
